@@ -567,9 +567,28 @@ func (x *c09) analyseShow(fi *FuncInfo, keyMode bool) (*handled, string) {
 					kindSwitch = s
 					return false // analysed below
 				}
+			case *ast.TypeAssertExpr:
+				// v, ok := x.(T): the same as a type-switch clause for T
+				if s.Type != nil {
+					if t := info.TypeOf(s.Type); t != nil {
+						if _, isI := t.Underlying().(*types.Interface); isI {
+							h.ifaces = append(h.ifaces, t)
+						} else {
+							h.exacts = append(h.exacts, t)
+						}
+					}
+				}
 			case *ast.CallExpr:
-				if f := callee(info, s); f != nil && f == ts.Obj && (keyMode || x.argIsParam(info, fi, s)) {
+				f := callee(info, s)
+				if f != nil && f == ts.Obj && (keyMode || depth > 0 || x.argIsParam(info, fi, s)) {
 					callsToString = true
+				}
+				// helper functions of the same package (e.g. a shared key-to-string conversion): what they
+				// handle counts; the show dispatchers themselves are not followed (they recurse on elements)
+				if f != nil && f != ts.Obj && f.Pkg() == fi.Obj.Pkg() && depth < 2 && keyMode && !strings.HasPrefix(f.Name(), "showIn") {
+					if hf := r.P.Func("internal/runtime", f.Name()); hf != nil && hf.Obj == f {
+						visit(hf.Decl.Body, depth+1)
+					}
 				}
 			case *ast.BinaryExpr:
 				// v.Type() == byteSliceType idiom
